@@ -211,6 +211,12 @@ def _apportion(ctx: Ctx):
     return r
 
 
+def c03_segment_width(ctx: Ctx):
+    from . import c03
+
+    return c03.rule_segment_width(ctx, "C01.14")
+
+
 def _scroll_clamp(ctx: Ctx):
     """Scrollable trims the rendered content by the stored position: an unclamped position trims more rows than
     exist (ValueError) or leaves fewer rows than requested - the clamp rule of C20 is a necessary condition here."""
@@ -266,6 +272,7 @@ def run(ctx: Ctx):
         accum.run_accum(p, "C01.11", "C01", floor=2),
         rule_hline_dedup(ctx),
         loopfresh.run_loopfresh(p, "C01.13", "C01", floor=6),
+        c03_segment_width(ctx),
     ]
 
 
